@@ -153,9 +153,12 @@ structure Code where
   thing in `batchStream.Close` (the regenerated list of *every* occurrence of the identifier in the
   package is exactly that) -/
   bgCancelOnlyInClose : Bool
-  /-- the producer hands `bgCtx` itself to the source's `Next` (and `bgCtx` occurs nowhere but there,
-  in the producer's guard, and in the `<-bgCtx.Done()` arms of the hand-off and of `flush`) -/
+  /-- the producer hands `bgCtx` itself to the source's `Next` -/
   srcNextGetsBg : Bool
+  /-- `bgCtx` occurs nowhere but: defined, argument of the producer's `s.Next`, in the producer's guard,
+  in the `<-bgCtx.Done()` arms of the hand-off and of `flush` (nobody else is given it, nothing else
+  selects on it) -/
+  bgCtxUsesPinned : Bool
   deriving DecidableEq, Repr
 
 /-- `bgCtx` can become done although `Close` has not been called: it has a deadline / a foreign
@@ -167,7 +170,7 @@ given": the three regenerated facts the LTS's `bgCancelled` flag stands on. Ever
 needs it states it as a conjunct of its own (so that a changed origin / a stray use of `bgCancel` /
 another context handed to the source breaks *that* theorem, not only the tie `code_is_good`). -/
 def Code.BgTied (k : Code) : Prop :=
-  k.bgOrigin = .plainCancel ∧ k.bgCancelOnlyInClose = true ∧ k.srcNextGetsBg = true
+  k.bgOrigin = .plainCancel ∧ k.bgCancelOnlyInClose = true ∧ k.srcNextGetsBg = true ∧ k.bgCtxUsesPinned = true
 
 instance (k : Code) : Decidable k.BgTied := by unfold Code.BgTied; infer_instance
 
@@ -222,7 +225,8 @@ def code : Code where
   bgCancelOnlyInClose := Gen.Batch.bgCancelUses ==
     ["BatchFunc: assigned (:=)", "BatchFunc: bgCancel: bgCancel", "BatchFunc: bgCancel: bgCancel",
      "type batchStream: field bgCancel context.CancelFunc", "batchStream.Close: iter.bgCancel()"]
-  srcNextGetsBg := Gen.Batch.srcNextCtxArg == "bgCtx" && Gen.Batch.bgCtxUses ==
+  srcNextGetsBg := Gen.Batch.srcNextCtxArg == "bgCtx"
+  bgCtxUsesPinned := Gen.Batch.bgCtxUses ==
     ["BatchFunc: assigned (:=)", "BatchFunc.func0: item, err := s.Next(bgCtx)",
      "BatchFunc.func0: if err == context.Canceled && bgCtx.Err() == context.Canceled",
      "BatchFunc.func0: <-bgCtx.Done()", "BatchFunc.func1.func1: <-bgCtx.Done()"]
